@@ -33,5 +33,6 @@ def install(E, name):
                 st.syms.append(('crc32#%d' % (len(memo) - 1), v))
             return v
         E.overrides['@carquet_crc32'] = crc32
+        E.overrides['@ref_crc32_ieee'] = crc32          # the reference reader's CRC of the same bytes is the same (uninterpreted) value
         return
     raise ValueError('unknown summary ' + name)
